@@ -265,7 +265,7 @@ theorem handle_calm (s s' : Sys) (m : Msg) (ms : List Msg) (hc : Calm m = true)
     intro x hx'
     obtain ⟨t, d, a, he⟩ := hb x hx'
     subst he; rfl
-  | hub s1 sender funds hm heq _ _ hx' _ _ _ _ _ =>
+  | hub s1 sender funds hm heq _ _ _ hx' _ _ _ _ _ =>
     subst heq
     exact hubExec_calm _ _ _ _ _ _ _ (by intro h; subst h; simp [Calm] at hc) hx'
   | bsei s1 sender funds tm _ _ hx' _ _ _ _ _ => exact bseiExec_calm _ _ _ _ _ _ _ _ _ hx'
